@@ -336,6 +336,20 @@ func (s *Stage) Receive(file *sts.Partial, reader io.Reader) (err error) {
 
 	done := isCompanionComplete(cmp)
 	if done {
+		// A retransmission may arrive after the record of the delivery has
+		// left the in-memory cache (restart, ageing) and without having been
+		// preceded by a poll or a "did you get these parts" request, so make
+		// sure the cache reaches back to this file's time (as those do)
+		// before deciding whether this is a duplicate
+		when := file.Time.Time
+		now := time.Now()
+		if when.After(now) {
+			when = now
+		}
+		if monthAgo := now.Add(-1 * time.Hour * 24 * 30); when.Before(monthAgo) {
+			when = monthAgo
+		}
+		s.buildCache(when)
 		final := s.partialToFinal(file)
 		existing := s.fromCache(final.path)
 		if existing != nil &&
